@@ -203,7 +203,10 @@ def avRowOf (fp : Nat) (data : Bytes) : RowRes String :=
       | (.done len, k2) =>
         if len < 0 then .bad
         else if (data.drop (k + k2)).length < len.toNat then .incomplete
-        else .ok (k + k2 + len.toNat) s!"A:{x}:{toHex ((data.drop (k + k2)).take len.toNat)}"
+        else
+          let str := (data.drop (k + k2)).take len.toNat
+          -- rows whose string is not valid UTF-8 are marked: `flush` rejects the batch
+          .ok (k + k2 + len.toNat) (if utf8Valid (str.length + 1) str then s!"A:{x}:{toHex str}" else "!")
 
 def avPrefixOf (magicLen : Nat) (pA pB : Bytes) (data : Bytes) : PrefixRes :=
   if data.length < magicLen then .needMore
@@ -227,7 +230,7 @@ def avRun (cfg : AvCfg String) (policy : String) (chunks : List Bytes) : String 
   let fin := avFlush cfg r.1.1
   let batches := r.2 ++ fin.2
   let rows := (batches.map (·.2)).flatten
-  let verdict := if r.1.1.err then "ERR:decode" else if r.1.2.isEmpty then "ok" else s!"partial:{r.1.2.length}"
+  let verdict := if r.1.1.err || fin.1.err then "ERR" else if r.1.2.isEmpty then "ok" else s!"partial:{r.1.2.length}"
   if batches.any (fun b => b.2.length > cfg.batchSize) then "MODEL-SPEC-MISMATCH batch above batch_size"
   else s!"rows={showList id rows} r={verdict}"
 
@@ -325,7 +328,7 @@ def handle (toks : List String) : String :=
     | some bs, some xs, some sizes, some pA, some pB =>
       match splitChunks xs sizes with
       | some cs =>
-        let cfg : AvCfg String := ⟨bs, avPrefixOf (if alg = "c" then 1 else 2) pA pB, fun fp => fp < 2, avRowOf⟩
+        let cfg : AvCfg String := ⟨bs, avPrefixOf (if alg = "c" then 1 else 2) pA pB, fun fp => fp < 2, avRowOf, fun r => r != "!"⟩
         let frames := avFrames cfg (xs.length + 1) xs
         -- the harness answers with the frame-by-frame, flush-after-each reference; the model must give
         -- the same for that schedule, for everything in one chunk, and — when no chunk boundary of the
